@@ -139,3 +139,37 @@ class DictHarness(object):
         c = self.cfg
         return '%s,iw=%s,%s%s' % (c['wire'], 'T' if c['ignore_wrappers'] else 'F', c['complex_as'],
                                   '' if c['text_keys'] else ',binkeys')
+
+
+class HttpHarness(object):
+    """HttpRpc through the real WsgiApplication (GET with a query string)."""
+
+    def __init__(self, program, validator=None, hier_delim='.', strict_arrays=False, out='http', built=None,
+                 wsgi_kw=None):
+        from spyne.server.wsgi import WsgiApplication
+        self.program = program
+        self.validator = validator
+        self.cfg = dict(validator=validator, hier_delim=hier_delim, strict_arrays=strict_arrays, out=out)
+        self.b = built or spec.build(program)
+        inp = make_proto('http', validator, hier_delim=hier_delim, strict_arrays=strict_arrays)
+        outp = make_proto('http') if out == 'http' else make_proto(out)
+        self.app = spec.make_app(self.b, inp, outp)
+        self.wsgi = WsgiApplication(self.app, **(wsgi_kw or {}))
+
+    natives = XmlHarness.natives
+    captured = XmlHarness.captured
+
+    @property
+    def label(self):
+        return 'http,delim=%s%s' % (self.cfg['hier_delim'], ',strict' if self.cfg['strict_arrays'] else '')
+
+    def get(self, mname, query, ret=None, script=None, headers=None, out_header=None):
+        b = self.b
+        m = b.methods[mname]
+        b.rec.reset()
+        b.rec.script[mname] = script if script is not None else ('ret', self.natives(m, ret))
+        if out_header:
+            hs = [spec.to_native(b, ['c', h, {}], out_header.get(h)) for h in m.get('out_header', [])]
+            b.rec.script[('out_header', mname)] = hs[0] if len(hs) == 1 else hs
+        env = drv.environ('GET', '/' + mname, query, b'', content_type=None, content_length=None, headers=headers)
+        return drv.call_wsgi(self.wsgi, env)
